@@ -18,7 +18,7 @@ for id in "$@"; do
     [ -n "$f" ] && python3 -c "
 import json,sys
 r=json.load(open('$f'))
-print('   shrunk tape', len(r['tape']), 'of', r['unshrunk_tape_len'], 'replay_exact', r['replay_exact'])
+print('   shrunk tape', len(r['tape'] or []), 'of', r['unshrunk_tape_len'], 'replay_exact', r['replay_exact'])
 for l in r['scenario'][:12]: print('   |', l[:200])
 print('   detail:', r['violation']['detail'][:400])
 "
